@@ -8,6 +8,8 @@ def run(F, G, tier, seed):
     printer.run(chk, F, G)
     printer.run_roles(chk, F)
     printer.run_total(chk, F)
+    from ..rules import prquery
+    prquery.run(chk, F, G)
     return chk.finish(
         "Decides that the printer's parenthesisation is safe with respect to the parser for every (parent, position, "
         "child) triple of the operator fragment - by LR simulation on the automaton of the current grammar, not by "
